@@ -187,6 +187,35 @@ class C07(Prop):
         for nme, g, w in zip(names, got, exp):
             if abs(g - w) > 1e-7 * max(1.0, abs(w)):
                 problems.append("%s lowered to an expression with value %.10g, the cell has %.10g" % (nme, g, w))
+        # two meshes of one cell type in ONE lowering call (anything the applier caches must be per mesh, not per cell type)
+        if tdim > 1:
+            gdim2 = gdim if rng.random() < 0.6 else (3 if tdim == 2 else gdim)
+            mesh2 = ufl.Mesh(LagrangeElement(cell, 1, (gdim2,)))
+            while True:
+                V2 = [[rng.randint(-6, 6) / rng.choice([1, 2]) for _ in range(gdim2)] for _ in range(tdim + 1)]
+                if abs(gram_det([sub(V2[j + 1], V2[0]) for j in range(tdim)])) > 0.05:
+                    break
+            qs = [("MinCellEdgeLength", mesh, V), ("MaxCellEdgeLength", mesh2, V2), ("CellDiameter", mesh2, V2), ("MinCellEdgeLength", mesh2, V2), ("CellDiameter", mesh, V), ("MaxCellEdgeLength", mesh, V)]
+            rng.shuffle(qs)
+            with warnings.catch_warnings():
+                warnings.simplefilter("ignore")
+                low2 = apply_geometry_lowering(ufl.as_vector([getattr(C, q)(mm) for q, mm, _ in qs]))
+            ev1 = ufl.Coefficient(ufl.FunctionSpace(mesh, FiniteElement("Lagrange", cell, 1, (len(EDGES[tdim]), gdim), pb.identity_pullback, H1)))
+            ev2 = ufl.Coefficient(ufl.FunctionSpace(mesh2, FiniteElement("Lagrange", cell, 1, (len(EDGES[tdim]), gdim2), pb.identity_pullback, H1)))
+            e3 = replace(low2, {C.CellEdgeVectors(mesh): ev1, C.CellEdgeVectors(mesh2): ev2})
+            m3 = {ev1: tup([sub(V[b], V[a]) for a, b in EDGES[tdim]]), ev2: tup([sub(V2[b], V2[a]) for a, b in EDGES[tdim]])}
+            def lens(VV):
+                return [norm(sub(VV[b], VV[a])) for a, b in EDGES[tdim]]
+            for i, (q, mm, VV) in enumerate(qs):
+                try:
+                    g3 = float(e3((0.0,) * gdim, m3, (i,)))
+                except Exception as ex:  # noqa
+                    problems.append("two meshes in one lowering call: %s cannot be evaluated (%s)" % (q, type(ex).__name__))
+                    break
+                w3 = min(lens(VV)) if q.startswith("Min") else max(lens(VV))
+                if abs(g3 - w3) > 1e-7 * max(1.0, abs(w3)):
+                    problems.append("two meshes of one cell type in one lowering call: %s of the %s mesh lowered to an expression with value %.10g, the cell has %.10g" % (q, "first" if mm is mesh else "second", g3, w3))
+                    break
         # cell normal (manifolds of codimension one)
         if tdim == gdim - 1:
             with warnings.catch_warnings():
